@@ -1,2 +1,7 @@
 import FastraceModel.Model.Codec
 import FastraceModel.Lemmas.Codec
+import FastraceModel.Props.ParamsOk
+import FastraceModel.Props.C12
+import FastraceModel.Props.C20
+import FastraceModel.Driver.Codec
+import FastraceModel.Driver.Report
